@@ -36,6 +36,13 @@ var c29RefVar = map[string]string{"${V1}": "C29_V1", "${V2}": "C29_V2", "${HP}":
 var c29VarText = map[string]string{"C29_V1": "pv1", "C29_V2": "${C29_V1}", "C29_HP": "qq:71", "C29_CC": "c1:2"}
 var c29ValueTok = map[string]string{"P": "pv1", "Q": "qq:71", "C": "c1:2"}
 
+// text with a dollar that is not a ${NAME} reference (C29_NS is set, C29_NU is
+// not) and the separator; rendered as they are for every flavor
+var c29DollarTok = map[string]string{"$NS": "$C29_NS", "$NU": "$C29_NU", "$$": "$$", "$5": "$5", "$": "$",
+	"${": "${", "${}": "${}", "$(X)": "$(X)", ".": "."}
+
+const c29NSText = "nsv" // what a (wrong) expansion of $C29_NS would put into the value
+
 var c29SrcLetter = map[string]string{"F": "f", "E": "e", "Y": "y", "X": "x"}
 var c29Number = map[string]int64{"F": 4001, "E": 4002, "Y": 4003, "X": 4004, "Z": 0}
 
@@ -98,6 +105,8 @@ func c29Render(flavor string, elem []string, dflt string) (string, error) {
 			b.WriteString("${" + c29RefVar[tok] + "}")
 		case c29ValueTok[tok] != "":
 			b.WriteString(c29ValueTok[tok])
+		case c29DollarTok[tok] != "":
+			b.WriteString(c29DollarTok[tok])
 		default:
 			f, ok := c29Frag(flavor, tok)
 			if !ok {
@@ -122,6 +131,9 @@ func c29Pieces(flavor string) []c29Piece {
 	}
 	for ref, v := range c29RefVar {
 		ps = append(ps, c29Piece{"${" + v + "}", ref})
+	}
+	for t, txt := range c29DollarTok {
+		ps = append(ps, c29Piece{txt, t})
 	}
 	sort.Slice(ps, func(i, j int) bool {
 		if len(ps[i].text) != len(ps[j].text) {
@@ -380,6 +392,7 @@ func (h *c29Harness) setup() error {
 		for k := range c29VarText {
 			os.Unsetenv(k)
 		}
+		os.Unsetenv("C29_NS")
 		for k, v := range saved {
 			os.Setenv(k, v)
 		}
@@ -387,7 +400,9 @@ func (h *c29Harness) setup() error {
 	for k, v := range c29VarText {
 		os.Setenv(k, v)
 	}
+	os.Setenv("C29_NS", c29NSText)
 	os.Unsetenv("C29_U")
+	os.Unsetenv("C29_NU")
 	// settings sharing a flag/env must be rendered alike
 	byOpt := map[string]*c29Setting{}
 	for _, s := range h.settings {
